@@ -9,6 +9,7 @@ M1 use-after-consume: after std::move(x) / std::forward<T>(x) with T not an lval
 M2 no raw std::move of forwarded storage: std::move(e) where the root of e is a forwarding
    reference parameter (or a range-for variable / iterator over one).
 """
+import re
 from . import facts as F
 from . import guards as G
 from . import terms as T
@@ -388,7 +389,8 @@ def m5_function(unit, fn, report):
             continue
         pt = unit.ty(p["t"]) or ""
         n_sites += 1
-        x_l = X.strip().endswith("&") and not X.strip().endswith("&&")
+        x_l = (X.strip().endswith("&") and not X.strip().endswith("&&")) or \
+            bool(re.search(r"\(\*[^()]*[^&]&\)\s*\(", X))       # reference to a pointer to function: `int (*const &)(int)`
         p_l = p["ref"] in ("lref", "clref")
         if strip_ref(X) != strip_ref(pt):
             # another template parameter of the same shape: only a defect if the category differs
